@@ -14,13 +14,16 @@ import (
 	"bytes"
 	"encoding/json"
 	"fmt"
+	"reflect"
 	"sort"
 	"strings"
 	"testing"
+	"unsafe"
 
 	"github.com/apernet/hysteria/core/v2/internal/protocol"
 	"verif.local/engine/enum"
 	"verif.local/engine/evidence"
+	"verif.local/engine/vpriv"
 	"verif.local/engine/xstate"
 )
 
@@ -548,58 +551,57 @@ func (s *c05Sys) Apply(op int) (err error) {
 	return nil
 }
 
-// c05Invariant: "the one message currently being reassembled": count = number of stored fragments,
-// every stored fragment belongs to the current packet id.
+// c05Invariant: "the one message currently being reassembled": every stored fragment belongs to
+// one packet id. Read from the private state by reflection (every *protocol.UDPMessage reachable
+// from the Defragger), so that it does not depend on how the Defragger lays its state out; when
+// the state holds no stored messages in that form the invariant is vacuous.
 func c05Invariant(d *Defragger) string {
-	filled := 0
-	for _, f := range d.frags {
-		if f != nil {
-			filled++
-			if f.PacketID != d.pktID {
-				return fmt.Sprintf("stored fragment of packet %#x while collecting packet %#x", f.PacketID, d.pktID)
-			}
+	var ids []uint16
+	c05WalkMsgs(reflect.ValueOf(d), func(m *protocol.UDPMessage) { ids = append(ids, m.PacketID) })
+	for _, id := range ids {
+		if id != ids[0] {
+			return fmt.Sprintf("stored fragments of packets %#x and %#x at the same time", ids[0], id)
 		}
-	}
-	if int(d.count) != filled {
-		return fmt.Sprintf("Defragger.count=%d but %d fragments are stored", d.count, filled)
 	}
 	return ""
 }
 
-// Key: every private field of the Defragger (nothing is abstracted away: Feed reads pktID,
-// len(frags), nil-ness of slots, count, size, and the data of the stored fragments), plus the
-// reference's window. Two histories with equal keys therefore have equal futures.
+func c05WalkMsgs(v reflect.Value, f func(*protocol.UDPMessage)) {
+	switch v.Kind() {
+	case reflect.Pointer:
+		if v.IsNil() {
+			return
+		}
+		if m, ok := v.Interface().(*protocol.UDPMessage); ok {
+			f(m)
+			return
+		}
+		c05WalkMsgs(v.Elem(), f)
+	case reflect.Struct:
+		tmp := reflect.New(v.Type()).Elem()
+		tmp.Set(v)
+		for i := 0; i < tmp.NumField(); i++ {
+			fv := tmp.Field(i)
+			c05WalkMsgs(reflect.NewAt(fv.Type(), unsafe.Pointer(fv.UnsafeAddr())).Elem(), f)
+		}
+	case reflect.Slice, reflect.Array:
+		for i := 0; i < v.Len(); i++ {
+			c05WalkMsgs(v.Index(i), f)
+		}
+	}
+}
+
+// Key: the whole private state of the Defragger, whatever its fields are (vpriv.Fingerprint
+// abstracts nothing away), plus the reference's window. Two histories with equal keys therefore
+// have equal futures.
 func (s *c05Sys) Key() string {
 	return c05ImplKey(s.d) + " " + s.ref.key()
 }
 
-func c05ImplKey(d *Defragger) string {
-	var b strings.Builder
-	fmt.Fprintf(&b, "pkt=%#x n=%d count=%d size=%d [", d.pktID, len(d.frags), d.count, d.size)
-	for i, f := range d.frags {
-		if f == nil {
-			continue
-		}
-		fmt.Fprintf(&b, "%d:%x/%d.%d.%x ", i, f.PacketID, f.FragID, f.FragCount, f.Data)
-	}
-	b.WriteString("]")
-	return b.String()
-}
+func c05ImplKey(d *Defragger) string { return vpriv.Fingerprint(d) }
 
-func c05Clone(d *Defragger) *Defragger {
-	c := &Defragger{pktID: d.pktID, count: d.count, size: d.size}
-	if d.frags != nil {
-		c.frags = make([]*protocol.UDPMessage, len(d.frags))
-		for i, f := range d.frags {
-			if f != nil {
-				g := *f
-				g.Data = c05Fresh(f.Data)
-				c.frags[i] = &g
-			}
-		}
-	}
-	return c
-}
+// c05Clone: a deep copy of the Defragger (no memory shared with the original).
+func c05Clone(d *Defragger) *Defragger { return vpriv.Clone(d) }
 
 // c05Probe: what a copy of the state answers to each symbol (history independence).
 func c05Probe(x xstate.Sys[int]) string {
